@@ -8,7 +8,7 @@ CHECK = {
              "builder.go is replaced at build time by a variable; if the literal is not found the label "
              "'snapshot-threshold-rewrite-NOT-active' appears and only real-size captures reach snapshots) x service restart "
              "(builder re-created, snapshot file reloaded, index directory re-listed, with or without the known-pcap cache) or "
-             "retained builder between imports (IPv4 fragments only in plans that cannot reach a snapshot while F-C08-fragments-lost-in-snapshot-replay is open) x (one import call in six) a well-formed capture without packets named at a generated "
+             "retained builder between imports x (one import call in six) a well-formed capture without packets named at a generated "
              "position of the call (it stays in the capture directory for the restarts that follow) x (one in six) an upload that "
              "cannot be read as a capture (text, cut file header, cut packet record) at a generated position, which ends the call there "
              "and leaves the rest to a second call, as the manager does. After every import: the visible streams equal those of a one-shot import of the "
